@@ -159,3 +159,43 @@ def t7(ctx):
 
 
 RULES.append(t7)
+
+
+# (adt, field) -> why ids stored there cannot go stale
+ID_STATE = {
+    ("egraph::EGraph", "unionfind"): "the union-find itself: entries are chased / compressed on every read (T4, T5)",
+    ("egraph::EGraph", "classes"): "keyed by class id; a deprecated class keeps its record, every access goes through find (T1, T6)",
+    ("egraph::EGraph", "hashcons"): "shape -> class: re-canonicalised by the rebuild loop whenever a child class changes (C02.P2, C08.W1)",
+    ("egraph::EGraph", "syn_hashcons"): "syntactic classes are never merged: the stored invocation names the class allocated for that syntactic node",
+    ("egraph::EGraph", "pending"): "work-list of shapes, drained before any public mutator returns (C02.P1, P3)",
+    ("egraph::EGraph", "modify_queue"): "popped ids are canonicalised with find_id before use (C14.A3)",
+    ("egraph::EGraph", "proof_registry"): "proof objects name syntactic classes (never merged)",
+    ("egraph::EClass", "nodes"): "re-canonicalised by the rebuild loop (C02.P5)",
+    ("egraph::EClass", "usages"): "maintained together with hashcons / nodes (C08.W1)",
+    ("egraph::EClass", "group"): "permutations of the class's own slots; proofs name syntactic classes",
+    ("egraph::EClass", "syn_enode"): "the syntactic node the class was allocated for (syntactic ids are never merged)",
+}
+ID_TYPES = ("types::Id", "types::AppliedId", "ProvenAppliedId", "ProvenSourceNode", "Pattern<", "RecExpr<", "ProvenPerm", "ProofRegistry")
+
+
+@rule("T8", doc="id-carrying state census: every field of EGraph / EClass that stores class ids (or nodes, which contain them) is one the rebuild keeps canonical")
+def t8(ctx):
+    crate = ctx.lib()
+    n = 0
+    for adt in ("egraph::EGraph", "egraph::EClass"):
+        a = crate.adts.get(adt)
+        if a is None:
+            raise mir.AnchorMissing(adt)
+        for f in a["variants"][0]["fields"]:
+            ty = f["ty"]
+            carries = any(t in ty for t in ID_TYPES) or ty == "L" or bool(__import__("re").search(r"(HashMap|HashSet|Vec|VecDeque|Option|BTreeMap|BTreeSet|BinaryHeap)<L[,>]", ty))
+            if not carries:
+                continue
+            n += 1
+            why = ID_STATE.get((adt, f["name"]))
+            ctx.check(why is not None, "id-state:%s.%s" % (adt.split("::")[-1], f["name"]), "%s.%s stores ids — %s" % (adt.split("::")[-1], f["name"], why),
+                      "%s.%s (%s) is new state that stores class ids / invocations across operations: after a later union the stored handle names a deprecated class, and code comparing it syntactically (e.g. `b[x := t]` looks for x with ==) silently stops recognising the class. It is not in the reviewed table of fields the rebuild keeps canonical" % (adt.split("::")[-1], f["name"], ty[:80]))
+    ctx.floor("id-carrying fields of EGraph / EClass", n, 8)
+
+
+RULES.append(t8)
